@@ -35,6 +35,17 @@ macro_rules! kproof {
     };
 }
 pub(crate) use kproof;
+/// kproof! plus the length-splitting `Vec::push` (stub_vec_push_any)
+macro_rules! kproof_vp {
+    ($(#[$m:meta])* fn $name:ident() $body:block) => {
+        kproof! {
+            #[kani::stub(std::vec::Vec::push, crate::verif_common::stub_vec_push_any)]
+            $(#[$m])*
+            fn $name() $body
+        }
+    };
+}
+pub(crate) use kproof_vp;
 
 /// Stub for `Vec::push` that is equivalent to the real one whenever the capacity suffices (asserted), but CASE-SPLITS on
 /// the length so that every element is written at a concrete offset.  After a path merge the length of a Vec is an
@@ -55,6 +66,38 @@ pub fn stub_vec_push_split<T, A: core::alloc::Allocator>(v: &mut Vec<T, A>, valu
             6 => core::ptr::write(base.add(6), value),
             7 => core::ptr::write(base.add(7), value),
             _ => { assert!(false, "stub_vec_push_split: more than 8 elements"); kani::assume(false); core::mem::forget(value); }
+        }
+        v.set_len(len + 1);
+    }
+}
+
+/// General form of the above: equivalent to `Vec::push` in every state (grows when full), case-splitting on the first 16
+/// lengths only.  For code that builds its own Vecs (`Vec::new()` + push) inside the functions under test.
+pub fn stub_vec_push_any<T, A: core::alloc::Allocator>(v: &mut Vec<T, A>, value: T) {
+    let len = v.len();
+    if len == v.capacity() {
+        v.reserve(16);
+    }
+    unsafe {
+        let base = v.as_mut_ptr();
+        match len {
+            0 => core::ptr::write(base, value),
+            1 => core::ptr::write(base.add(1), value),
+            2 => core::ptr::write(base.add(2), value),
+            3 => core::ptr::write(base.add(3), value),
+            4 => core::ptr::write(base.add(4), value),
+            5 => core::ptr::write(base.add(5), value),
+            6 => core::ptr::write(base.add(6), value),
+            7 => core::ptr::write(base.add(7), value),
+            8 => core::ptr::write(base.add(8), value),
+            9 => core::ptr::write(base.add(9), value),
+            10 => core::ptr::write(base.add(10), value),
+            11 => core::ptr::write(base.add(11), value),
+            12 => core::ptr::write(base.add(12), value),
+            13 => core::ptr::write(base.add(13), value),
+            14 => core::ptr::write(base.add(14), value),
+            15 => core::ptr::write(base.add(15), value),
+            _ => core::ptr::write(base.add(len), value),
         }
         v.set_len(len + 1);
     }
